@@ -140,6 +140,38 @@ def check_zip_operands():
              "key": "fixup-overload-zip", "confirmed": True}]
 
 
+# ---- TypeAlias.tvar_tuple_index is derived from constructor arguments only; fixup assigns alias_tvars of a
+# special alias (named tuples, TypedDicts) afterwards, so it has to re-derive the index in the same place:
+# wherever visit_type_info sets `special_alias.alias_tvars`, the same block sets `tvar_tuple_index` for the
+# TypeVarTupleType among them (class invariant of TypeAlias: the index is the position of the variadic one)
+
+
+def check_special_alias_index():
+    import ast
+    from pyvc.interp import func_node
+    from pyvc.target import resolve
+
+    fnode, _ = func_node(resolve("mypy.fixup:NodeFixer.visit_type_info"))
+    blocks = []
+    for n in ast.walk(fnode):
+        if isinstance(n, ast.If) and "special_alias" in ast.unparse(n.test):
+            sets_tvars = any(isinstance(a, ast.Assign) and any(isinstance(t, ast.Attribute) and t.attr == "alias_tvars" for t in a.targets) for a in n.body)
+            if sets_tvars:
+                sets_index = any(isinstance(x, ast.Assign) and any(isinstance(t, ast.Attribute) and t.attr == "tvar_tuple_index" for t in x.targets)
+                                 for st in n.body if isinstance(st, ast.For) for x in ast.walk(st))
+                mentions_tvt = any("TypeVarTupleType" in ast.unparse(st) for st in n.body if isinstance(st, ast.For))
+                blocks.append((n.lineno, sets_index and mentions_tvt))
+    if len(blocks) < 2:
+        return [{"name": "fixup/special-alias-variadic-index-rederived", "status": "unknown", "where": f"{len(blocks)} special_alias blocks found in visit_type_info"}]
+    obs = []
+    for ln, ok in blocks:
+        obs.append({"name": f"fixup/special-alias-variadic-index-rederived/line{ln}", "status": "discharged" if ok else "refuted", "where": f"mypy/fixup.py:{ln}",
+                    "detail": "" if ok else "alias_tvars of the special alias is re-assigned without re-deriving tvar_tuple_index: a variadic generic NamedTuple / TypedDict loaded from the cache rejects its own type arguments",
+                    "key": "fixup-special-alias-index", "confirmed": True})
+    return obs
+
+
+
 def targets(tier):
     from pyvc.runner import StaticCheck
 
@@ -152,4 +184,5 @@ def targets(tier):
         Target("fixup.visit_overloaded_func_def.link", "mypy.fixup:NodeFixer.visit_overloaded_func_def", setup_ov_iter, loop_body=("for typ, item in zip(o.type.items, o.items)", None),
                ensures=[("item-type-definition-relinked", ens_ov_iter)], raises=(), overrides=OV, field_types=FT),
         StaticCheck("fixup.visit_overloaded_func_def.pairing", check_zip_operands, note="operands of the zip, decided on the source"),
+        StaticCheck("fixup.visit_type_info.special_alias_index", check_special_alias_index, note="source-level frame on the two special-alias blocks"),
     ]
